@@ -54,7 +54,9 @@ class Ctx:
         self.dropped = {}
         self.exhaustive = {}
         self.findings = load_findings(prop)
-        self.replay_dir = os.path.join(VERIF, "replay", prop)
+        # runs against a scratch copy of the repository (bin/seedtool: VERIF_REPO) keep their replay files and evidence out of /verif
+        self.out_root = os.environ.get("VERIF_OUT") or VERIF
+        self.replay_dir = os.path.join(self.out_root, "replay", prop)
 
     # ---- scratch -----------------------------------------------------------------------------
     def sub(self, name):
@@ -225,8 +227,8 @@ class Ctx:
         ev = {"property_id": self.prop, "tier": self.tier, "seed": self.seed, "level": level, "coverage": cov,
               "assumptions": list(assumptions), "wall_s": round(time.time() - self.t0, 1),
               "violations": len(self.violations)}
-        os.makedirs(os.path.join(VERIF, "evidence"), exist_ok=True)
-        with open(os.path.join(VERIF, "evidence", self.prop + ".json"), "w") as fo:
+        os.makedirs(os.path.join(self.out_root, "evidence"), exist_ok=True)
+        with open(os.path.join(self.out_root, "evidence", self.prop + ".json"), "w") as fo:
             json.dump(ev, fo, indent=1)
         self.cleanup()
         log("%s %s: %d evaluations, %d states, %d traces validated, %d known, %d violations, %.0fs" % (
